@@ -43,7 +43,35 @@ ASSUMPTIONS = [
     "(PauliSumExponential.matrix() is not judged)",
     "tolerances: 1e-9 for exact Pauli arithmetic, 1e-7 for unitaries/expectations (complex128), 2e-5 for complex64 states",
 ]
-SENSITIVITY = []
+SENSITIVITY = [
+    "_imul_atom_helper phase table entry",
+    "_calc_conjugation uses the tableau instead of its inverse",
+    "DensePauliString.__mul__ phase from swapped operands",
+    "expectation_from_density_matrix applies the Pauli on the column index",
+    "expectation_from_state_vector without conjugating the bra",
+    "to_z_basis_ops maps Y to -Z",
+    "PauliSum.__rmul__ multiplies on the wrong side",
+    "PauliString.__rsub__ sign",
+    "sparse_matrix little-endian bit position",
+    "after() does not invert the operations",
+    "conjugated_by applies the operations in circuit order",
+    "inplace_before applies the operations in circuit order",
+    "_calc_conjugation Y = -iXZ",
+    "from_boolean_expression Xor coefficient",
+    "PauliSumExponential swaps the phasor exponents",
+    "PauliMeasurementGate ignores the -1 coefficient",
+    "ProjectorString.expectation_from_density_matrix indexes only the rows",
+    "PauliString.__pow__ multi-qubit drops the coefficient phase on the negative eigenspace",
+    "PauliString.__rpow__ half-turn sign",
+    "DensePauliString.__pow__ coefficient index",
+    "Simulator.simulate_expectation_values maps qubits in sorted order",
+    "PauliInteractionGate inverted eigenprojector of qubit 1",
+    "PauliSum.__neg__ leaves one-term sums unchanged",
+    "phasor decomposition counts identity positions in the parity (reverts the fix)",
+    "dense * sparse drops the sparse coefficient (reverts the fix)",
+    "single-qubit PauliString power ignores the coefficient (reverts the fix)",
+    "apply_unitary decomposition mutates before giving up (reverts the fix)",
+]
 
 Q = cirq.LineQubit.range(6)
 PG = {"X": cirq.X, "Y": cirq.Y, "Z": cirq.Z, "I": cirq.I}
@@ -1145,7 +1173,12 @@ def oracle_misc(r):
     expr = _to_sympy(r["expr"])
     if not isinstance(expr, (sympy.Symbol, sympy.And, sympy.Or, sympy.Xor, sympy.Not)):
         raise Reject("expression simplified to a constant")
-    ps = cirq.PauliSum.from_boolean_expression(expr, {"x0": qs[0], "x1": qs[1], "x2": qs[2]})
+    try:
+        ps = cirq.PauliSum.from_boolean_expression(expr, {"x0": qs[0], "x1": qs[1], "x2": qs[2]})
+    except ValueError as e:
+        if str(e).startswith("Unsupported type") and "Boolean" in str(e):
+            raise Reject("documented ValueError: sympy folded a sub-expression into a constant")
+        raise
     M = ps.matrix(qs)
     diag = np.array([float(_eval_bool(r["expr"], {"x0": bool(b0), "x1": bool(b1), "x2": bool(b2)}))
                      for b0, b1, b2 in itertools.product([0, 1], repeat=3)])
@@ -1183,7 +1216,24 @@ def oracle_misc(r):
 # Observed but deliberately not asserted: the deprecated PauliString.pass_operations_over with a multi-operation list
 # (only single-operation lists are checked, where the documented and the legacy reading coincide).
 
-KNOWN_FEATURES = {}
+
+
+def _f_identity_times_dense(sub, r):
+    """Candidate C14-identity-string-times-dense (sent to the fixer): (qubit-less PauliString) * DensePauliString raises
+    TypeError because BaseDensePauliString.__rmul__ tests the interpreted operand for truthiness (length 0 is falsy)."""
+    if sub != "algebra" or not r.get("dense_mixed"):
+        return False
+    n = int(r["n"])
+    return set((r["b"]["ps"] + "I" * n)[:n]) <= {"I"}
+
+
+KNOWN_FEATURES = {"C14_identity_string_times_dense_typeerror": _f_identity_times_dense}
+# not yet adjudicated: kept out of *generation* only (VERIF_C14_PENDING=1 generates it)
+PENDING = set() if os.environ.get("VERIF_C14_PENDING") else {"C14_identity_string_times_dense_typeerror"}
+
+
+def _not_pending(sub):
+    return lambda r: not any(KNOWN_FEATURES[f](sub, r) for f in sorted(PENDING))
 
 
 # =========================================================================================== registry
@@ -1194,7 +1244,7 @@ SUBCHECKS = [
     SubCheck("pairs_2q", None, oracle_pairs, enumerate=_pair_recipes, exhaustive_in=("quick", "thorough"), shards_quick=8, shards_thorough=8),
     SubCheck("conj_1q", None, oracle_conj1, enumerate=_conj1_recipes, exhaustive_in=("quick", "thorough"), shards_quick=2, shards_thorough=4),
     SubCheck("conj_2q", None, oracle_conj2, enumerate=_conj2_recipes, exhaustive_in=("thorough",), shards_quick=8, shards_thorough=16, doc=_CONJ_SLICE_DOC),
-    SubCheck("algebra", _algebra_case(), oracle_algebra, quick=3000, thorough=80000, shards_quick=4, shards_thorough=16,
+    SubCheck("algebra", _algebra_case().filter(_not_pending("algebra")), oracle_algebra, quick=3000, thorough=80000, shards_quick=4, shards_thorough=16,
              essential={"complex_coeff": 0.2}),
     SubCheck("conj_random", _conj_case(), oracle_conj_random, quick=1500, thorough=40000, shards_quick=4, shards_thorough=16,
              essential={"moved": 0.3}),
